@@ -16,7 +16,8 @@ RULE = (
     "Cases: a model of each family (daily legacy/current profiles, billing, hourly solar and non-solar profiles, CalTRACK hourly) "
     "fitted on a full-year baseline (every month and weekday present, by construction) x a reporting set (1 day .. 1 year, "
     "hourly spans may contain 23/25-hour days) x an alteration of its observed column from {scaled by k, permuted, random cells "
-    "NaN, a whole month NaN, all NaN, column absent, all zero, sign flipped, +-inf cells}. Oracle (metamorphic): the altered run "
+    "NaN, a whole month NaN, all NaN, column absent, all zero, scattered zeros, sign flipped, +-inf cells}; in two cases of five the model "
+    "has already produced an interim report over a shorter span and both runs start from copies of that used model. Oracle (metamorphic): the altered run "
     "does not raise if the original did not; for every timestamp for which both runs produce a prediction the predicted value "
     "is bit-identical; hourly and CalTRACK runs produce a prediction on every row. Non-trivial: the alteration changes at least "
     "10% of the observed cells (hourly: and the reporting span is at least a week). Distinct = distinct case descriptions."
@@ -26,7 +27,7 @@ ASSUMPTIONS = [
     "electric zero usage is 'missing' by the data classes' convention",
     "a data class rejecting the altered frame (e.g. a 3-day span with a hole read as billing data) is counted, not judged here: acceptance is C10's subject",
 ]
-ALTS = ["scale", "permute", "nan_cells", "nan_month", "all_nan", "absent", "zero", "negate", "inf_cells", "constant"]
+ALTS = ["scale", "permute", "nan_cells", "nan_month", "all_nan", "absent", "zero", "zero_cells", "negate", "inf_cells", "constant"]
 
 
 @st.composite
@@ -35,7 +36,9 @@ def cases(draw, family=None):
     r = draw(zoo.reporting(b))
     r["observed"] = True
     return {"kind": "alt", "baseline": b, "rep": r, "alt": draw(st.sampled_from(ALTS)), "k": draw(st.sampled_from([0.0, 0.5, 3.0, 1e6, -2.0])),
-            "alt_seed": draw(st.integers(0, 2 ** 20))}
+            "alt_seed": draw(st.integers(0, 2 ** 20)),
+            # the model may have been used before (an interim report over a shorter span)
+            "interim": draw(st.sampled_from([None, None, 7, 30, 90]))}
 
 
 def alter(df, c):
@@ -57,6 +60,8 @@ def alter(df, c):
         o[:] = np.nan
     elif a == "zero":
         o[:] = 0.0
+    elif a == "zero_cells":
+        o[rng.random(n) < 0.1] = 0.0
     elif a == "negate":
         o = -o
     elif a == "inf_cells":
@@ -73,9 +78,15 @@ def judge(c, rec):
     b = c["baseline"]
     fam = b["family"]
     m, _ = zoo.fitted(b)
+    if c.get("interim"):
+        try:
+            zoo.predict(m, b, zoo.build_reporting(b, dict(c["rep"], n=c["interim"] if fam != "billing" else max(c["interim"], 35), start_day=c["rep"]["start_day"] - 100)))
+        except Exception:
+            pass
+    m_alt = __import__("copy").deepcopy(m)  # both runs start from the same (possibly used) model
     df = zoo.reporting_frame(b, c["rep"])
     df2 = alter(df, c)
-    cls = ["family=" + fam, "profile=" + b["profile"], "alt=" + c["alt"], "n=%d" % c["rep"]["n"]]
+    cls = ["family=" + fam, "profile=" + b["profile"], "alt=" + c["alt"], "n=%d" % c["rep"]["n"], "used-model=%d" % bool(c.get("interim"))]
     rep1 = zoo.build_reporting(b, c["rep"], frame=df)
     try:
         p1 = zoo.predict(m, b, rep1)
@@ -97,7 +108,7 @@ def judge(c, rec):
         rec.case(c, False, cls + ["altered-data-rejected"])
         return
     try:
-        p2 = zoo.predict(m, b, rep2)
+        p2 = zoo.predict(m_alt, b, rep2)
     except Exception as e:
         bkt = exc_bucket(e)
         if bkt is None:
